@@ -46,6 +46,8 @@ pub enum CBulk {
     None,
     FromVec,
     FromIter,
+    /// from an iterator that reports size_hint (0, None)
+    FromIterUnknown,
     Append(u8),
     Retain,
     RetainMut,
@@ -76,6 +78,11 @@ pub enum CPrio {
 
 #[derive(Clone, PartialEq, Eq, Debug, Serialize, Deserialize, Hash)]
 pub struct CostCase {
+    /// how the measured queue came to be: 0 From<Vec>; 1 new() + iter_mut dropped on the empty queue +
+    /// n pushes; 2 twice as many pushed, half popped, cleared, refilled by pushes; 3 converted from the
+    /// other kind; 4 with_capacity + pushes + shrink_to_fit
+    #[serde(default)]
+    pub prefix: u8,
     pub kind: Kind,
     pub n_exp: u8,
     pub jitter: i8,
@@ -144,6 +151,7 @@ pub fn cost_strategy(thorough: bool) -> BoxedStrategy<CostCase> {
         10 => Just(CBulk::None),
         1 => Just(CBulk::FromVec),
         1 => Just(CBulk::FromIter),
+        1 => Just(CBulk::FromIterUnknown),
         2 => (0u8..8).prop_map(CBulk::Append),
         1 => Just(CBulk::Retain),
         1 => Just(CBulk::RetainMut),
@@ -162,26 +170,64 @@ pub fn cost_strategy(thorough: bool) -> BoxedStrategy<CostCase> {
         0u8..6,
         bulk,
         vec((op, target, prio), 1..40),
+        prop_oneof![6 => Just(0u8), 1 => Just(1u8), 1 => Just(2u8), 1 => Just(3u8), 1 => Just(4u8)],
     )
-        .prop_map(|(kind, n_exp, jitter, pattern, bulk, steps)| CostCase { kind, n_exp, jitter, pattern, bulk, steps })
+        .prop_map(|(kind, n_exp, jitter, pattern, bulk, steps, prefix)| CostCase { prefix, kind, n_exp, jitter, pattern, bulk, steps })
         .boxed()
 }
 
 thread_local! {
-    static BASES: std::cell::RefCell<HashMap<(bool, usize, u8), Box<dyn std::any::Any>>> = std::cell::RefCell::new(HashMap::new());
+    static BASES: std::cell::RefCell<HashMap<(bool, usize, u8, u8), Box<dyn std::any::Any>>> = std::cell::RefCell::new(HashMap::new());
 }
 
-fn base_queue<Q: Queue + 'static>(n: usize, pattern: u8) -> Q {
+fn base_queue<Q: Queue + 'static>(n: usize, pattern: u8, prefix: u8) -> Q {
+    // the history-built bases cost n log n to build: keep them to moderate sizes
+    let prefix = if n > (1 << 17) { 0 } else { prefix % 5 };
     BASES.with(|b| {
         let mut b = b.borrow_mut();
         // keep the cache small: big queues are expensive to hold
         if b.len() > 24 {
             b.clear();
         }
-        let e = b.entry((Q::DOUBLE, n, pattern)).or_insert_with(|| {
+        let e = b.entry((Q::DOUBLE, n, pattern, prefix)).or_insert_with(|| {
             set_default_hb(HasherKind::Xx);
-            let v: Vec<(Key, Prio)> = (0..n).map(|i| (Key::new(i as u32, 0), Prio::new(pattern_prio(pattern, i, n)))).collect();
-            Box::new(Q::from_vec(v))
+            let pairs = |tag: u32| -> Vec<(Key, Prio)> { (0..n).map(|i| (Key::new(i as u32, tag), Prio::new(pattern_prio(pattern, i, n)))).collect() };
+            let q: Q = match prefix {
+                0 => Q::from_vec(pairs(0)),
+                1 => {
+                    let mut q = Q::construct(CtorHow::WithDefaultHasher, HasherKind::Xx);
+                    drop(q.iter_mut());
+                    q.retain(|_, _| true);
+                    for (k, p) in pairs(0) {
+                        q.push(k, p);
+                    }
+                    q
+                }
+                2 => {
+                    let mut q = Q::construct(CtorHow::WithDefaultHasher, HasherKind::Xx);
+                    for i in 0..2 * n {
+                        q.push(Key::new((10 * n + i) as u32, 0), Prio::new(i as i64));
+                    }
+                    for _ in 0..n {
+                        q.pop_max();
+                    }
+                    q.clear();
+                    for (k, p) in pairs(0) {
+                        q.push(k, p);
+                    }
+                    q
+                }
+                3 => <Q::Other as Queue>::from_vec(pairs(0)).into_other(),
+                _ => {
+                    let mut q = Q::construct(CtorHow::WithCapacityAndDefaultHasher(n / 2), HasherKind::Xx);
+                    for (k, p) in pairs(0) {
+                        q.push(k, p);
+                    }
+                    q.shrink_to_fit();
+                    q
+                }
+            };
+            Box::new(q)
         });
         e.downcast_ref::<Q>().unwrap().clone()
     })
@@ -216,8 +262,8 @@ fn cost_run<Q: Queue + 'static>(c: &CostCase, stats: &mut Stats, maxima: Option<
         }
     };
     set_default_hb(HasherKind::Xx);
-    let mut q: Q = base_queue::<Q>(n0, c.pattern);
-    let what = format!("pattern {} n={}", c.pattern % 6, n0);
+    let mut q: Q = base_queue::<Q>(n0, c.pattern, c.prefix);
+    let what = format!("pattern {} n={} built by history {}", c.pattern % 6, n0, c.prefix % 5);
     // ---- bulk operation (consumes the working copy)
     if c.bulk != CBulk::None {
         let n = q.len();
@@ -234,6 +280,15 @@ fn cost_run<Q: Queue + 'static>(c: &CostCase, stats: &mut Stats, maxima: Option<
                 let v: Vec<(Key, Prio)> = (0..n).map(|i| (Key::new(i as u32, 1), Prio::new(pattern_prio(c.pattern, i, n)))).collect();
                 reset_cmp_count();
                 let r = Q::from_iterator(v.into_iter());
+                let g = cmp_count();
+                drop(r);
+                ("from_iter", g, n)
+            }
+            CBulk::FromIterUnknown => {
+                // ascending priorities: an element-by-element build would sift every element to the root
+                let v: Vec<(u32, u32, i64)> = (0..n).map(|i| (i as u32, 1, i as i64)).collect();
+                reset_cmp_count();
+                let r = Q::from_iterator(crate::interp::hinted(&v, crate::case::Hint::Unknown));
                 let g = cmp_count();
                 drop(r);
                 ("from_iter", g, n)
